@@ -286,8 +286,15 @@ def body_builder_history(k, dup_bias=None):
             viol.append(('finish: id == index', pt[0] != j)); viol.append(('finish: value at its index', pt[1] != model[j]))
         m = M.model(z3.Or([c for _, c in viol]))
         if m is None: M.emit('ok', distinct=len(model), pattern=trace)
-        else: M.emit('cex', what='builder.history', pattern=trace, failed=sorted({w for w, c in viol if z3.is_true(m.eval(c, model_completion=True))})[:4])
+        else: M.emit('cex', what='builder.history', pattern=trace, values=rank_vals(m, model), failed=sorted({w for w, c in viol if z3.is_true(m.eval(c, model_completion=True))})[:4])
     return body
+
+
+def rank_vals(m, xs):
+    """natural numbers ordered like the model's ranks of the (pairwise distinct) values xs, ties by position"""
+    rank = z3.Function('rank_' + T.name(), T, z3.IntSort())
+    rk = sorted(range(len(xs)), key=lambda i: (m.eval(rank(xs[i]), model_completion=True).as_long(), i))
+    return [rk.index(i) for i in range(len(xs))]
 
 
 def body_long_history(n, builder):
@@ -326,7 +333,9 @@ def body_long_history(n, builder):
         if m is None: M.emit('ok', n=n)
         else:
             j = [i for i, x in enumerate(xs) if z3.is_true(m.eval(xr == x, model_completion=True))]
-            M.emit('cex', what='builder.history' if builder else 'interner.history', pattern=list(range(n)) + j[:1], values=list(range(n)) + j[:1],
+            # the order of the values matters to order-based representations: natural numbers in the order of the model's ranks (ties by position)
+            vals = rank_vals(m, xs)
+            M.emit('cex', what='builder.history' if builder else 'interner.history', pattern=list(range(n)) + j[:1], values=vals + [vals[i] for i in j[:1]],
                    failed=sorted({w for w, c in viol if z3.is_true(m.eval(c, model_completion=True))})[:4])
     return body
 
@@ -351,7 +360,7 @@ def replay_case(ctx, case):
     if w == 'interner.history':
         a = nat.ask({'op': 'interner_history', 'values': case['values']}); return not a.get('ok', False), None
     if w == 'builder.history':
-        a = nat.ask({'op': 'builder_history', 'pattern': case['pattern']}); return (a.get('panic') or a.get('crashed') or not a.get('ok', False)), None
+        a = nat.ask(dict({'op': 'builder_history', 'pattern': case['pattern']}, **({'order': case['values']} if 'values' in case else {}))); return (a.get('panic') or a.get('crashed') or not a.get('ok', False)), None
     if 'pre' not in case: return False, None
     kind, op = w.split('.')
     a = nat.ask({'op': 'table_step', 'kind': kind, 'pre': case['pre'], 'step': op, 'arg': case['arg'], 'sym': min(case['sym'], 64)})
@@ -456,11 +465,13 @@ def run(ctx):
         cexs += [r for r in h.results if r['kind'] == 'cex']
         ctx.obligations['builder: new() then %d register_type calls (+ next_type_id/get/finish) agree with the list model (%d value-equality patterns)' % (k, sum(h.kinds.values()))] = 'unsat' if not h.kinds.get('cex') else 'sat'
     nlong = 40 if Tq else 20
-    for b in (False, True):
-        h = attempt('%s.long-history-%d' % ('builder' if b else 'interner', nlong), body_long_history(nlong, b), subst=SUBST)
+    for nl, b in [(n_, b_) for n_ in (2, 3, 4, nlong) for b_ in (False, True)]:
+        # the short ones leave the order of the values free (order-dependent representations); the long one is capped in time: on a representation
+        # that forks per comparison it is deferred and the short ones decide
+        h = attempt('%s.long-history-%d' % ('builder' if b else 'interner', nl), body_long_history(nl, b), subst=SUBST, timeout=120 if nl == nlong else 600)
         if h is None: continue
         cexs += [r for r in h.results if r['kind'] == 'cex']
-        ctx.obligations['%s: %d pairwise distinct values from new(), then an operation on a value equal to the j-th (j symbolic) (%d paths)' % ('builder' if b else 'interner', nlong, sum(h.kinds.values()))] = 'unsat' if not h.kinds.get('cex') else 'sat'
+        ctx.obligations['%s: %d pairwise distinct values from new(), then an operation on a value equal to the j-th (j symbolic) (%d paths)' % ('builder' if b else 'interner', nl, sum(h.kinds.values()))] = 'unsat' if not h.kinds.get('cex') else 'sat'
     hneg = attempt('negative-control', body_step('intern_or_get', False, wrong=True), subst=SUBST)
     if hneg is not None:
         ctx.harnesses.pop()
